@@ -37,6 +37,8 @@ type Spec struct {
 	DesignRef string
 	// Post is an optional hook run in the driver after shards were merged (e.g. race-log parsing).
 	Post func(d *DriveState)
+	// Env returns extra environment variables for a worker shard.
+	Env func(shard int, work string) []string
 }
 
 var specs = map[string]*Spec{}
@@ -178,6 +180,9 @@ func Drive(id, tier string, seed int64, root, exe, raceExe string) int {
 			cmd.Stderr = logf
 			cmd.Dir = root
 			cmd.Env = append(os.Environ(), "VERIF_ROOT="+root)
+			if spec.Env != nil {
+				cmd.Env = append(cmd.Env, spec.Env(i, work)...)
+			}
 			if err := cmd.Start(); err != nil {
 				outcomes[i].exitErr = err
 				return
